@@ -189,6 +189,31 @@ func (f File) Validate() error {
 				return fmt.Errorf("union %s has duplicate field name %s", un.Name, fd.name())
 			}
 			unionNames[fd.name()] = struct{}{}
+			// the members of a union are definitions of their own: they become top level
+			// types in generated code and obey the same naming rules
+			if _, ok := primitiveTypes[fd.name()]; ok {
+				return fmt.Errorf("union %s member shares primitive type name %s", un.Name, fd.name())
+			}
+			if _, ok := customTypes[fd.name()]; ok {
+				return fmt.Errorf("union %s member has duplicated name %s", un.Name, fd.name())
+			}
+			customTypes[fd.name()] = struct{}{}
+			memberFieldNames := map[string]struct{}{}
+			var memberFields []Field
+			if fd.Struct != nil {
+				memberFields = fd.Struct.Fields
+			}
+			if fd.Message != nil {
+				for _, mfd := range fd.Message.Fields {
+					memberFields = append(memberFields, mfd)
+				}
+			}
+			for _, mfd := range memberFields {
+				if _, ok := memberFieldNames[mfd.Name]; ok {
+					return fmt.Errorf("union %s member %s has duplicate field name %s", un.Name, fd.name(), mfd.Name)
+				}
+				memberFieldNames[mfd.Name] = struct{}{}
+			}
 		}
 		if un.OpCode != 0 {
 			if conflict, ok := allOpCodes[un.OpCode]; ok {
